@@ -1078,7 +1078,17 @@ def _index_forms(model, rep):
                     and isinstance(x.test, ast.Call)
                     and src(x.test.func) == "callable"]
             if len(alts) != 1:
-                raise AnalysisError(f"Mesh.{wname}: stored value not found")
+                # the statement form: if callable(x): ... else: tags[k] = v
+                ifs = [x for x in ast.walk(wf.node) if isinstance(x, ast.If)
+                       and isinstance(x.test, ast.Call)
+                       and src(x.test.func) == "callable" and x.orelse
+                       and isinstance(x.orelse[-1], ast.Assign)]
+                if len(ifs) != 1:
+                    raise AnalysisError(f"Mesh.{wname}: stored value not "
+                                        f"found")
+                alts = [ast.IfExp(test=ifs[0].test, body=ifs[0].test,
+                                  orelse=ifs[0].orelse[-1].value,
+                                  lineno=ifs[0].lineno)]
             stored = alts[0].orelse
             cons = f"Mesh.{wname}:boolean-mask-stored-as-indices"
             if isinstance(stored, ast.Call):
@@ -1259,6 +1269,9 @@ _D = "skfem/assembly/dofs.py"
 _AB = "skfem/assembly/basis/abstract_basis.py"
 _M = "skfem/mesh/mesh.py"
 MUTANTS = [
+    ("with_boundaries as a loop storing a Boolean mask as given",
+     (_M, '        return replace(\n            self,\n            _boundaries={\n                **({} if self._boundaries is None else self._boundaries),\n                **{name: self.facets_satisfying(test_or_set, boundaries_only)\n                   if callable(test_or_set)\n                   else self._mask_to_indices(test_or_set)\n                   for name, test_or_set in boundaries.items()}\n            },\n        )',
+      '        tagged = dict({} if self._boundaries is None else self._boundaries)\n        for name, test_or_set in boundaries.items():\n            if callable(test_or_set):\n                tagged[name] = self.facets_satisfying(test_or_set,\n                                                      boundaries_only)\n            else:\n                tagged[name] = test_or_set\n        return replace(self, _boundaries=tagged)'), "C07-R4"),
     ("subdomain tags store Boolean masks as given and look them up "
      "unchanged",
      [(_M, "                          if callable(test) else "
@@ -1432,6 +1445,9 @@ MUTANTS = [
       "dtype=np.int32)"), "C07-R4"),
 ]
 TWINS = [
+    ("with_boundaries written as a loop with an if statement",
+     (_M, '        return replace(\n            self,\n            _boundaries={\n                **({} if self._boundaries is None else self._boundaries),\n                **{name: self.facets_satisfying(test_or_set, boundaries_only)\n                   if callable(test_or_set)\n                   else self._mask_to_indices(test_or_set)\n                   for name, test_or_set in boundaries.items()}\n            },\n        )',
+      '        tagged = dict({} if self._boundaries is None else self._boundaries)\n        for name, test_or_set in boundaries.items():\n            if callable(test_or_set):\n                tagged[name] = self.facets_satisfying(test_or_set,\n                                                      boundaries_only)\n            else:\n                tagged[name] = self._mask_to_indices(test_or_set)\n        return replace(self, _boundaries=tagged)')),
     ("facet selector recognises a single index with np.ndim",
      (_M, "        if isinstance(facets, (int, np.integer)):",
       "        if not isinstance(facets, (str, bool)) and not callable("
